@@ -134,7 +134,7 @@ func cmdCheck(args []string) int {
 	// packages to load
 	pkgSet := map[string]bool{}
 	for _, s := range specs {
-		if s.Kind == "fn" {
+		if s.Kind == "fn" || s.Kind == "lemma" {
 			pkgSet[s.Pkg] = true
 		}
 	}
@@ -255,8 +255,53 @@ func (run *checkRun) verifyLemma(s *FnSpec) *fnResult {
 	st.allocTop = ex.ctx.Const("allocTop0", SInt)
 	err := safeSpec(func() {
 		env := &Env{ex: ex, cur: st, old: st, vars: map[string]TV{}, cf: ex.cf}
-		for _, p := range s.Params {
-			env.vars[p] = TV{Sc{ex.ctx.Const("p_"+p, SInt)}, nil}
+		if run.ld != nil {
+			if pp := run.ld.PP[s.Pkg]; pp != nil {
+				ex.typesPkg = pp.Types
+			}
+		}
+		for i, p := range s.Params {
+			kind := "int"
+			if i < len(s.ParamKinds) {
+				kind = s.ParamKinds[i]
+			}
+			switch kind {
+			case "int", "bool", "map", "set", "seq", "array", "nat":
+				env.vars[p] = TV{Sc{ex.ctx.Const("p_"+p, kindSort(kind))}, nil}
+				if kind == "nat" {
+					st.assume(tLe(intLit(0), env.vars[p].V.(Sc).T))
+				}
+			default:
+				// a Go type: the lemma holds for every value of that type in every heap
+				t := env.resolveType(kind)
+				env.vars[p] = TV{st.freshValue(t, "p_"+p), t}
+			}
+		}
+		if s.Induct != "" {
+			// strong induction on a natural-number parameter: the statement may be assumed for every smaller value.
+			// Built as a spec quantifier over a synthetic predicate (same absolute-index treatment as elsewhere).
+			iv, ok := env.vars[s.Induct]
+			if !ok {
+				sfail("induct: unknown parameter %s", s.Induct)
+			}
+			st.assume(tLe(intLit(0), iv.V.(Sc).T))
+			body := conjExpr(lemClauses(s.Ensures))
+			if len(s.Requires) > 0 {
+				body = &SExpr{Kind: "binop", Op: "==>", Args: []*SExpr{conjExpr(lemClauses(s.Requires)), body}}
+			}
+			dn := "lemma$ih$" + s.Key
+			ex.cf.Defs[dn] = &SpecDef{Name: dn, Kind: "pred", Params: s.Params, Body: body}
+			var args []*SExpr
+			for _, p := range s.Params {
+				if p == s.Induct {
+					args = append(args, &SExpr{Kind: "ident", Op: "ih$v"})
+				} else {
+					args = append(args, &SExpr{Kind: "ident", Op: p})
+				}
+			}
+			q := &SExpr{Kind: "forall", Vars: []QVar{{Name: "ih$v", Type: "int", Lo: &SExpr{Kind: "lit", Lit: "0"}, Hi: &SExpr{Kind: "ident", Op: s.Induct}}},
+				Args: []*SExpr{{Kind: "call", Op: dn, Args: args}}}
+			st.assume(env.evalBool(q))
 		}
 		for _, r := range s.Requires {
 			st.assume(env.evalBool(r.Expr))
@@ -318,14 +363,36 @@ func (run *checkRun) solveAll(dump string) []*ObResult {
 			if ws := j.fr.whens[j.ob.Name]; len(ws) > 0 && !j.ob.Cover {
 				asm = append(append([]Term{}, asm...), tNot(tOr(ws...)))
 			}
+			if !j.ob.Cover {
+				// stage 0: ground hypotheses only
+				var ground []Term
+				nq := 0
+				for _, a := range asm {
+					if strings.Contains(a.S, "(forall ") || strings.Contains(a.S, "(exists ") {
+						nq++
+						continue
+					}
+					ground = append(ground, a)
+				}
+				if nq > 0 {
+					if ok, secs := solveGround(j.fr.ctx.Query(ground, j.ob.Goal, false)); ok {
+						results[i] = inst{res: SolveResult{Status: "unsat", Solver: "z3-5.1.0 (ground hypotheses)", Secs: secs}, ob: j.ob, fr: j.fr}
+						return
+					}
+				}
+			}
 			var fpTerms []Term
 			for _, it := range j.fr.footprint {
 				fpTerms = append(fpTerms, it.Term)
 			}
 			q := j.fr.ctx.Query(asm, j.ob.Goal, true, fpTerms...)
 			if dump != "" && strings.Contains(j.ob.Name, dump) {
-				os.MkdirAll(filepath.Join(verifDir, "out", "dump"), 0o755)
-				os.WriteFile(filepath.Join(verifDir, "out", "dump", sanitize(j.ob.Name)+"_"+strconv.Itoa(i)+".smt2"), []byte(q), 0o644)
+				dd := filepath.Join(verifDir, "out", "dump")
+				if d := os.Getenv("AKVERIF_DUMPDIR"); d != "" {
+					dd = d
+				}
+				os.MkdirAll(dd, 0o755)
+				os.WriteFile(filepath.Join(dd, sanitize(j.ob.Name)+"_"+strconv.Itoa(i)+".smt2"), []byte(q), 0o644)
 			}
 			to := run.timeout
 			if j.ob.Cover {
